@@ -34,7 +34,6 @@ theorem gen_bip_init_eq (nv : Nat) {G : BipG} (h : G.WF) (out : Except Err Unit)
     BipartiteEdgesVariables.init ⟨nv⟩ (absBip G) out =
       Py.tryExcept out Err.indexError (Except.error Err.valueError) (fun _ => Except.ok (bipSelf nv G)) := by
   unfold BipartiteEdgesVariables.init
-  rw [if_neg (by simp)]
   congr 1
   funext _
   have hU : Py.Range.toList (absBip G).parts.1 = ints (rangeN 1 (G.l + 1)) := range_toList_nat G.l
